@@ -305,6 +305,12 @@ def main():
     ap.add_argument("--replay")
     a = ap.parse_args()
     seed = int(os.environ.get("VERIF_SEED", "1"))
+    # one check at a time per copy of /verif: the checks share the built harness, the regenerated Lean files and the lake build
+    # directory, so a second check started on the same copy waits for the first (copies elsewhere have locks of their own)
+    import fcntl
+    os.makedirs(BUILD, exist_ok=True)
+    _lock = open(os.path.join(BUILD, "lock"), "w")
+    fcntl.flock(_lock, fcntl.LOCK_EX)
     import props
     if a.pid == "setup":
         props.setup()
